@@ -272,6 +272,12 @@ class FuncORD:
         b = node.func.value
         if isinstance(b, ast.Name) and self.accum.get(b.id) == 'dict':
           return Prov('OTHER', 'dict:' + b.id)
+      if isinstance(node.func, ast.Name) and node.func.id in self.fi.module.functions:
+        # a helper of the same module handed storage-ordered data: the order of what it returns is whatever the helper makes of it
+        for a in node.args:
+          pa = self.prov(a.value if isinstance(a, ast.Starred) else a, at, depth + 1)
+          if pa.kind in ('STORAGE', 'BADSORT'):
+            return Prov('BADSORT', UNK + 'the order of the result of %s(...) over storage-ordered data (%s) is decided inside that helper' % (node.func.id, pa.detail[:60]))
       return OTHER
     if isinstance(node, (ast.ListComp, ast.GeneratorExp, ast.SetComp)):
       if isinstance(node, ast.SetComp):
@@ -310,6 +316,16 @@ class FuncORD:
     if name in self.extra_storage:
       return Prov('STORAGE', 'parameter ' + name)
     ds = [(ln, val, st) for (ln, val, st) in self.defs.get(name, []) if ln <= at_line]
+    # a plain re-binding in the function's own statement list, with nothing appended afterwards, replaces whatever the name held before
+    top = [(ln, val, st) for (ln, val, st) in ds if val is not None and ln < at_line and any(st is b for b in self.fn.body)]
+    if top:
+      ln0, val0, st0 = max(top, key=lambda t: t[0])
+      later = [l for (l, _v, _s) in ds if l > ln0] + [l for (l, _s) in self.appends.get(name, []) if ln0 < l < at_line] + \
+              [f.lineno for f in self.for_targets.get(name, []) if ln0 < f.lineno <= at_line]
+      if not later:
+        p0 = self.prov(val0, st0, depth + 1)
+        if p0.kind == 'BADSORT' and p0.detail.startswith(UNK):
+          return p0
     ps = []
     last_def = max([ln for (ln, _v, _s) in ds], default=0)
     for (ln, val, st) in ds:
